@@ -18,13 +18,12 @@ import copy
 import itertools
 import random
 import re
-import time
 from typing import Any, Callable, Dict, List, Optional, Tuple
 
 from lib.bounded import BObl
 from spec.gen import random_model, ELEMENT_KINDS, feature_subsets, element_model
 from spec.model import view, normalize, diff
-from spec.surface import surface, surface_ex, Sp, SurfaceError
+from spec.surface import surface_ex, SurfaceError
 
 Sig = Tuple[str, str]
 
